@@ -75,6 +75,10 @@ type GhostVar struct {
 
 // AtCall: ghost update performed right after the n-th call (source order) of a callee whose name ends with Callee
 type AtCall struct {
+	Assume bool // assumed (unchecked, reported) instead of proved
+	Text   string
+	Hint   bool // proved (then assumed) right before the call instead of a ghost update after it
+	Props  []string
 	Callee string
 	N      int
 	Var    string
@@ -104,10 +108,11 @@ type ContractFile struct {
 }
 type GhostField struct{ Type, Field, Sort string }
 
-var reClause = regexp.MustCompile(`^(requires|ensures|modifies|decreases|trusted|nilable|hint|assume|preserves|unreachable-returns|opaque|exit)(\[[A-Z0-9,]+\])?\s*(.*)$`)
-var reLoop = regexp.MustCompile(`^loop\s+(\d+)\s+(invariant|decreases|modifies|hint)(\[[A-Z0-9,]+\])?\s+(.*)$`)
+var reClause = regexp.MustCompile(`^(requires|ensures|modifies|decreases|trusted|nilable|hint|assume|preserves|unreachable-returns|opaque|exit|apply)(\[[A-Z0-9,]+\])?\s*(.*)$`)
+var reLoop = regexp.MustCompile(`^loop\s+(\d+)\s+(invariant|decreases|modifies|hint|apply)(\[[A-Z0-9,]+\])?\s+(.*)$`)
 var reGhostVar = regexp.MustCompile(`^ghost\s+var\s+([A-Za-z_][A-Za-z0-9_]*)\s+(int|bool)\s*=\s*(.*)$`)
 var reAtCall = regexp.MustCompile(`^at\s+call\s+([A-Za-z0-9_./()*]+)#(\d+)\s+ghost\s+([A-Za-z_][A-Za-z0-9_]*)\s*:=\s*(.*)$`)
+var reAtCallHint = regexp.MustCompile(`^at\s+call\s+([A-Za-z0-9_./()*]+)#(\d+)\s+(?:hint|assume)(\[[A-Z0-9,]+\])?\s+(.*)$`)
 var rePure = regexp.MustCompile(`^(?:pure|arith)\s+([A-Za-z_][A-Za-z0-9_]*)\s*\(([^)]*)\)\s*:\s*([A-Za-z0-9_\[\]\*\.]+)\s*=\s*(.*)$`)
 var reGhost = regexp.MustCompile(`^ghost\s+field\s+([A-Za-z_][A-Za-z0-9_]*)\.([A-Za-z_][A-Za-z0-9_]*)\s*:\s*(.*)$`)
 
@@ -234,13 +239,22 @@ func parseContractFile(path string) (*ContractFile, error) {
 				cur.GhostVars = append(cur.GhostVars, GhostVar{m[1], ghostSortName(m[2]), e})
 				continue
 			}
+			if m := reAtCallHint.FindStringSubmatch(t); m != nil {
+				n, _ := strconv.Atoi(m[2])
+				e, err := parseSpec(m[4])
+				if err != nil {
+					return nil, fail(err)
+				}
+				cur.AtCalls = append(cur.AtCalls, AtCall{Callee: m[1], N: n, Expr: e, Line: l.line, Hint: true, Props: parseProps(m[3]), Assume: strings.Contains(t[:strings.Index(t, "#")+12], " assume"), Text: m[4]})
+				continue
+			}
 			if m := reAtCall.FindStringSubmatch(t); m != nil {
 				n, _ := strconv.Atoi(m[2])
 				e, err := parseSpec(m[4])
 				if err != nil {
 					return nil, fail(err)
 				}
-				cur.AtCalls = append(cur.AtCalls, AtCall{m[1], n, m[3], e, l.line})
+				cur.AtCalls = append(cur.AtCalls, AtCall{Callee: m[1], N: n, Var: m[3], Expr: e, Line: l.line})
 				continue
 			}
 			if m := reLoop.FindStringSubmatch(t); m != nil {
